@@ -61,6 +61,8 @@ pub fn drive_nfs(ops: &str, trace: &str) {
         let f = op["f"].as_i64().unwrap_or(0);
         // should_refresh: (now relative to the run start, leeway, answer)
         let sr = std::cell::Cell::new((0u64, 0i64, 0u8));
+        // "mt": per-thread observations (thread, reported by the refresh, read back afterwards, vouchers ok)
+        let mt_obs: std::cell::RefCell<Vec<(usize, u64, u64, bool)>> = Default::default();
         let r = guarded(|| -> Result<Option<(u64, bool)>, String> {
             let io = |e: std::io::Error| format!("{:?}", e.kind());
             match ev.as_str() {
@@ -127,6 +129,48 @@ pub fn drive_nfs(ops: &str, trace: &str) {
                     let (b, v) = nv::get_base_time(now).map_err(io)?;
                     Ok(Some((b, check_pair(b, v))))
                 }
+                "mt" => {
+                    // concurrent callers: every thread forces a refresh (now + 1 h) and reads the base time back
+                    let threads = geti(op, "threads") as usize;
+                    let iters = geti(op, "iters") as usize;
+                    let deadline = std::time::Instant::now() + std::time::Duration::from_millis(geti(op, "ms") as u64);
+                    let handles: Vec<_> = (0..threads)
+                        .map(|t| {
+                            std::thread::spawn(move || {
+                                let ok = |b: u64, v: raffle::Voucher| match time::OffsetDateTime::from_unix_timestamp_nanos(b as i128 * 1_000_000) {
+                                    Ok(odt) => vouched_time::VouchedTime::check(time::PrimitiveDateTime::new(odt.date(), odt.time()), b, v).is_ok(),
+                                    Err(_) => false,
+                                };
+                                let mut obs = Vec::with_capacity(iters);
+                                let mut prev = (0u64, 0u64);
+                                for _ in 0..iters {
+                                    if std::time::Instant::now() >= deadline {
+                                        break;
+                                    }
+                                    let now = time::OffsetDateTime::now_utc();
+                                    let (rep, repv) = match nv::get_base_time(now + time::Duration::hours(1)) {
+                                        Ok((b, v)) => (b, ok(b, v)),
+                                        Err(_) => (0, true),
+                                    };
+                                    let (seen, v) = nv::get_base_time_unlocked(now).expect("unlocked");
+                                    // (only what differs from this thread's previous observation is logged)
+                                    if (rep, seen) != prev {
+                                        obs.push((t, rep, seen, repv && ok(seen, v)));
+                                        prev = (rep, seen);
+                                    }
+                                }
+                                obs
+                            })
+                        })
+                        .collect();
+                    for h in handles {
+                        match h.join() {
+                            Ok(o) => mt_obs.borrow_mut().extend(o),
+                            Err(p) => std::panic::resume_unwind(p),
+                        }
+                    }
+                    Ok(None)
+                }
                 "should_refresh" => {
                     // pure policy: is the base time older than the leeway, and is there anything to refresh from?
                     let now = time::OffsetDateTime::now_utc() + time::Duration::milliseconds(geti(op, "off"));
@@ -162,6 +206,9 @@ pub fn drive_nfs(ops: &str, trace: &str) {
                 Err(_) => json!({"f": id, "dev": "?", "ctime": 0, "mtime": 0}),
             })
             .collect();
+        for (t, rep, seen, vok) in mt_obs.borrow().iter() {
+            out.emit(&json!({"run":run.run,"ev":"mt_obs","t":t,"rep":rel(*rep),"seen":rel(*seen),"vok":*vok as u8}));
+        }
         let (sr_now, sr_lee, sr_ans) = sr.get();
         e.insert("sr_now".into(), json!(sr_now));
         e.insert("sr_leeway".into(), json!(sr_lee));
